@@ -17,7 +17,7 @@ META = {
                    "the checks / sort+dedup); host-bits guards and provenance in the Prefix constructors; the decoder guard "
                    "that justifies the one unsafe SmallAsnSet constructor call; Eq/Ord/Hash of RouteOrigin read exactly the "
                    "same projections; shift sites enumerated; the step table of each of the four merge iterators (what is "
-                   "advanced / yielded for every combination of heads and their order) equals the table of its set operation.",
+                   "advanced / yielded for every combination of heads and their order) equals the table of its set operation; Prefix::covers is false on every path feasible for a more specific self.",
     "not_decided": ["covers ⇔ range inclusion (128-bit mask arithmetic)", "totality/transitivity of Ord",
                     "correctness of the merge iterators beyond their single-step tables (that the inputs are ascending)", "text round trip as value identity"],
     "trusted_base": ["std sort/dedup/binary_search", "derive(PartialEq, Hash) compare/hash all fields",
